@@ -49,11 +49,24 @@ def r1_responses(report, repo):
     return sum(1 for n, _ in steps for s in n.subnodes()
                if isinstance(s, ast.Call) and call_name(s) == 'self.usb.read')
 
+  # locals by definition: the packet read, its first four bytes, the rest
+  resp = lib.local_from(f, lib.calls(name='self.usb.read'), 'response')
+
+  def slice_of(e, lo, hi):
+    return isinstance(e, ast.Subscript) and core.is_name(e.value, resp) and \
+        isinstance(e.slice, ast.Slice) and e.slice.step is None and \
+        (e.slice.lower.value if isinstance(e.slice.lower, ast.Constant)
+         else None) == lo and \
+        (e.slice.upper.value if isinstance(e.slice.upper, ast.Constant)
+         else None) == hi
+  hdr = lib.local_from(f, lambda e: slice_of(e, None, 4), 'header')
+  rem = lib.local_from(f, lambda e: slice_of(e, 4, None), 'remaining')
+
   def classify(expr, steps):
     if reads(steps) != 1:
       return None
     if isinstance(expr, ast.Compare) and len(expr.ops) == 1 and \
-        core.is_name(expr.left, 'header'):
+        core.is_name(expr.left, hdr):
       op, r = expr.ops[0], expr.comparators[0]
       c = core.const_str(r)
       if c in ('INFO', 'OKAY', 'FAIL') and isinstance(op, (ast.Eq, ast.NotEq)):
@@ -107,7 +120,7 @@ def r1_responses(report, repo):
       if v['expected']:
         if ended != 'exit':
           return 'final-row: the expected final packet must return'
-        if dotted(p.last_return().value) != 'remaining':
+        if dotted(p.last_return().value) != rem:
           return 'final-row: must return the payload'
         if (len(cbs) == 1) != v['okay']:
           return 'final-row: callback on OKAY only (got %d calls, okay=%s)' % (
@@ -124,7 +137,7 @@ def r1_responses(report, repo):
       if ended != 'raise' or r is None or last_attr(r.exc) != \
           'FastbootRemoteFailureError':
         return 'FAIL-row: must raise FastbootRemoteFailureError'
-      if not any(core.is_name(x, 'remaining') for x in ast.walk(r.exc)):
+      if not any(core.is_name(x, rem) for x in ast.walk(r.exc)):
         return 'FAIL-row: the error does not carry the device text'
       if len(cbs) != 1:
         return 'FAIL-row: the callback must see the FAIL message once'
@@ -138,11 +151,11 @@ def r1_responses(report, repo):
                      ['info', 'final', 'expected', 'okay', 'fail'], classify,
                      spec, consistent)
   hs = [n for n in walk_no_nested(f.node) if isinstance(n, ast.Assign) and
-        core.is_name(n.targets[0], 'header')]
+        core.is_name(n.targets[0], hdr)]
   rs = [n for n in walk_no_nested(f.node) if isinstance(n, ast.Assign) and
-        core.is_name(n.targets[0], 'remaining')]
-  ok = len(hs) == 1 and len(rs) == 1 and norm(hs[0].value) == 'response[:4]' \
-      and norm(rs[0].value) == 'response[4:]'
+        core.is_name(n.targets[0], rem)]
+  ok = len(hs) == 1 and len(rs) == 1 and slice_of(hs[0].value, None, 4) \
+      and slice_of(rs[0].value, 4, None)
   report.check(ok, rule, f.qualname, 'split', f.node,
                'header = response[:4], payload = response[4:]')
 
@@ -168,12 +181,16 @@ def r2_data_phase(report, repo):
       wn, lambda n: n is data_n[0]), rule, f.qualname, 'after-DATA', wc,
                'image bytes only after the device answered DATA')
 
+  # the local holding the size the device accepted (result of the DATA wait)
+  acc = lib.local_from(f, lib.calls(name='self._accept_responses'),
+                       'accepted_size')
+
   def size_eq(s, l, d):
     if s.kind != 'test' or not isinstance(s.ast, ast.Compare) or \
         len(s.ast.ops) != 1:
       return False
     names = {dotted(s.ast.left), dotted(s.ast.comparators[0])}
-    if names != {'accepted_size', pn[2]}:
+    if names != {acc, pn[2]}:
       return False
     if isinstance(s.ast.ops[0], ast.NotEq):
       return l == 'F'
@@ -193,7 +210,7 @@ def r2_data_phase(report, repo):
   report.check(len(tr) == 1, rule, f.qualname, 'transfer-error', f.node,
                'a size mismatch raises FastbootTransferError')
   args = [dotted(a) for a in wc.args]
-  report.check(args[:1] == [pn[1]] and args[1:2] in (['accepted_size'],
+  report.check(args[:1] == [pn[1]] and args[1:2] in ([acc],
                                                       [pn[2]]), rule,
                f.qualname, 'write-args', wc,
                '_write(source_file, <the agreed size>, progress_callback)')
@@ -359,14 +376,17 @@ def r5_progress(report, repo):
   report.expect_instances(rule, len(ys), 1, 'yields')
   y = ys[0]
 
+  # the running total: the callback's first argument
+  cur = dotted(cs[0].args[0]) if cs and cs[0].args else 'current'
+
   def accumulates(n):
     if n.kind != 'stmt':
       return False
     s = n.ast
     return (isinstance(s, ast.AugAssign) and isinstance(s.op, ast.Add) and
-            core.is_name(s.target, 'current')) or (
+            core.is_name(s.target, cur)) or (
                 isinstance(s, ast.Assign) and core.is_name(s.targets[0],
-                                                           'current') and
+                                                           cur) and
                 isinstance(s.value, ast.BinOp) and isinstance(s.value.op,
                                                               ast.Add))
 
@@ -387,7 +407,7 @@ def r5_progress(report, repo):
                'when the progress callback raises, the running total is not '
                'advanced: every later progress value (and the final one) is '
                'short')
-  ok = any(c for c in cs if [dotted(a) for a in c.args] == ['current', 'total'])
+  ok = any(c for c in cs if [dotted(a) for a in c.args] == [cur, lib.param_names(f.node)[1]])
   report.check(ok, rule, f.qualname, 'reports-cumulative', cs[0],
                'the callback receives (cumulative, total)')
 
